@@ -1051,14 +1051,32 @@ fn nontrivial(c: &Case) -> bool {
 // ------------------------------------------------------------------------------------------------
 // running batches (one shard = one thread with its own driver process)
 
+enum Work {
+    Batch(Vec<Case>),
+    /// every expressible stopwatch sequence of exactly `len` operations extending `prefix`
+    Exhaustive { prefix: Vec<Op>, len: usize, slots: usize },
+}
+
+fn fnv(s: &str) -> u64 {
+    let mut h: u64 = 0xcbf29ce484222325;
+    for b in s.bytes() {
+        h ^= b as u64;
+        h = h.wrapping_mul(0x100000001b3);
+    }
+    h
+}
+
 #[derive(Default)]
 struct Shard {
     evaluations: u64,
-    nontrivial: Vec<String>,
+    /// hashes of the non-trivial cases that are not part of an exhaustive enumeration
+    nontrivial: Vec<u64>,
+    exhaustive_nontrivial: u64,
+    exhaustive_sequences: u64,
     dist: BTreeMap<String, u64>,
     oracle_failures: Vec<(String, String, String, String)>,
     disagreements: Vec<(String, String, String, String)>,
-    samples: Vec<Json>,
+    samples: Vec<(u64, Json)>,
     driver_missing: bool,
 }
 
@@ -1155,7 +1173,7 @@ fn measure(c: &Case, out: &str, sh: &mut Shard) {
     }
 }
 
-fn run_batch(cases: &[Case], driver: &Option<String>, sh: &mut Shard, sample_every: usize) {
+fn run_batch(cases: &[Case], driver: &Option<String>, sh: &mut Shard, exhaustive: bool) {
     let mut requests = vec![];
     let mut outs = vec![];
     let mut idx = vec![];
@@ -1166,14 +1184,20 @@ fn run_batch(cases: &[Case], driver: &Option<String>, sh: &mut Shard, sample_eve
         };
         sh.evaluations += 1;
         let enc = c.encode();
+        let hash = fnv(&enc);
         if nontrivial(c) {
-            sh.nontrivial.push(enc.clone());
+            if exhaustive {
+                sh.exhaustive_nontrivial += 1;
+            } else {
+                sh.nontrivial.push(hash);
+            }
         }
         measure(c, &out, sh);
-        if sample_every > 0 && ci % sample_every == 0 && sh.samples.len() < 3 {
+        // samples: chosen by hash of the case text (independent of scheduling), smallest hashes win
+        if hash % 4099 == 0 && sh.samples.len() < 64 {
             let mut o = out.clone();
             o.truncate(300);
-            sh.samples.push(json!({"case": enc, "impl": o}));
+            sh.samples.push((hash, json!({"case": enc, "impl": o})));
         }
         if let Some(what) = oracle(c, &out) {
             if sh.oracle_failures.len() < 20 {
@@ -1295,86 +1319,86 @@ fn main() {
     let thorough = args.thorough();
     let threads: usize = args.extra.get("threads").and_then(|s| s.parse().ok()).unwrap_or(if thorough { 14 } else { 4 });
 
-    // ---- build the work list: a list of batches, each a Vec<Case> -----------------------------
-    let mut batches: Vec<Vec<Case>> = vec![];
-    let mut expressible_exhaustive = 0u64;
+    // ---- build the work list ---------------------------------------------------------------------
+    let mut work: Vec<Work> = vec![];
     if let Some(line) = args.replay_case() {
-        batches.push(Case::decode(&line).into_iter().collect());
+        work.push(Work::Batch(Case::decode(&line).into_iter().collect()));
     } else {
         let corpus: Vec<Case> = args.corpus_cases().iter().filter_map(|l| Case::decode(l)).collect();
         rep.bump_by("corpus cases", corpus.len() as u64);
-        batches.push(corpus);
+        work.push(Work::Batch(corpus));
 
         // (1) stopwatch, exhaustive: every expressible sequence of exactly L operations over
-        //     {advance, start, stop, drop, discard, overwrite, clear} × {borrowed, owned slots 0..S-1}
-        let plans: &[(usize, usize)] = if thorough { &[(8, 2), (7, 3)] } else { &[(6, 2), (5, 3)] };
+        //     {advance, start, stop, drop, discard, overwrite, clear} × {borrowed, owned slots 0..S-1};
+        //     one work unit per expressible 3-operation prefix, expanded lazily by the worker
+        let plans: &[(usize, usize)] = if thorough { &[(9, 2), (8, 3)] } else { &[(7, 2), (6, 3)] };
         for (len, slots) in plans {
-            let mut cur: Vec<Case> = vec![];
-            let mut n = 0u64;
-            enumerate_sw(&mut vec![], &Shape::default(), *len, *slots, &mut |ops| {
-                n += 1;
-                cur.push(Case::Sw { threaded: false, ops: ops.to_vec() });
-                if cur.len() >= 20_000 {
-                    batches.push(std::mem::take(&mut cur));
-                }
+            enumerate_sw(&mut vec![], &Shape::default(), 3, *slots, &mut |prefix| {
+                work.push(Work::Exhaustive { prefix: prefix.to_vec(), len: *len, slots: *slots });
             });
-            batches.push(cur);
-            rep.bump_by(&format!("sw exhaustive: expressible sequences of length {len} with {slots} owned slots"), n);
-            expressible_exhaustive += n;
         }
         // (2) stopwatch, random long sequences
-        let n_rand = if thorough { 400_000 } else { 12_000 };
+        let n_rand = if thorough { 600_000 } else { 20_000 };
         let mut cur = vec![];
         for i in 0..n_rand {
             let len = match i % 4 {
                 0 => 40,
                 1 => rng.range(5, 30) as usize,
                 2 => rng.range(30, 80) as usize,
-                _ => if thorough { rng.range(80, 200) as usize } else { 40 },
+                _ => {
+                    if thorough {
+                        rng.range(80, 200) as usize
+                    } else {
+                        40
+                    }
+                }
             };
             let slots = rng.range(1, 4) as usize;
             let nasty = i % 5 == 0;
             let threaded = i % 16 == 7;
             cur.push(Case::Sw { threaded, ops: gen_sw(&mut rng, len, slots, nasty) });
-            if cur.len() >= 5_000 {
-                batches.push(std::mem::take(&mut cur));
+            if cur.len() >= 2_000 {
+                work.push(Work::Batch(std::mem::take(&mut cur)));
             }
         }
-        batches.push(std::mem::take(&mut cur));
-        // (3) timer: exhaustive over {a, s} to length 10 (12), then random
-        let tl = if thorough { 12 } else { 10 };
+        work.push(Work::Batch(std::mem::take(&mut cur)));
+        // (3) timer: exhaustive over {a, s} to length 10 (14), then random
+        let tl = if thorough { 14 } else { 10 };
         for bits in 0u32..(1 << tl) {
             let ops: Vec<TOp> = (0..tl).map(|i| if bits >> i & 1 == 1 { TOp::Stop } else { TOp::Adv(3u64.pow(i as u32)) }).collect();
             cur.push(Case::Timer { default_ts: bits % 2 == 1, ops });
+            if cur.len() >= 2_000 {
+                work.push(Work::Batch(std::mem::take(&mut cur)));
+            }
         }
-        for i in 0..(if thorough { 40_000 } else { 3_000 }) {
+        for i in 0..(if thorough { 60_000 } else { 3_000 }) {
             let len = rng.range(0, 30) as usize;
             cur.push(Case::Timer { default_ts: rng.chance(1, 2), ops: gen_timer(&mut rng, len, i % 3 == 0) });
+            if cur.len() >= 2_000 {
+                work.push(Work::Batch(std::mem::take(&mut cur)));
+            }
         }
-        batches.push(std::mem::take(&mut cur));
+        work.push(Work::Batch(std::mem::take(&mut cur)));
         // (4) timestamps
-        for _ in 0..(if thorough { 100_000 } else { 4_000 }) {
+        for _ in 0..(if thorough { 150_000 } else { 6_000 }) {
             let len = rng.range(1, 10) as usize;
             let (w0, ops) = gen_ts(&mut rng, len);
             cur.push(Case::Ts { w0, ops });
-            if cur.len() >= 5_000 {
-                batches.push(std::mem::take(&mut cur));
+            if cur.len() >= 1_000 {
+                work.push(Work::Batch(std::mem::take(&mut cur)));
             }
         }
-        batches.push(std::mem::take(&mut cur));
+        work.push(Work::Batch(std::mem::take(&mut cur)));
         // (5) get_time_source: all eight configurations
         for bits in 0..8 {
             cur.push(Case::Resolve { e: bits & 1 != 0, t: bits & 2 != 0, r: bits & 4 != 0 });
         }
-        batches.push(std::mem::take(&mut cur));
+        work.push(Work::Batch(std::mem::take(&mut cur)));
         rep.exhaustive = true;
-        rep.notes.push(format!(
-            "stopwatch sequences are generated expressible-only (Rust borrow rules: no stopwatch method while a TimerGuard is live); \
-             {expressible_exhaustive} expressible maximal sequences enumerated exhaustively (every shorter sequence is a prefix, observed too)"
-        ));
     }
 
-    // ---- run the batches on `threads` threads --------------------------------------------------
+    // ---- run the work units on `threads` threads (which thread runs which unit does not matter:
+    //      every result is a sum, a set, or sorted below) -----------------------------------------
     let next = std::sync::atomic::AtomicUsize::new(0);
     let driver = args.driver.clone();
     let shards: Vec<Shard> = std::thread::scope(|s| {
@@ -1384,14 +1408,38 @@ fn main() {
                     let mut sh = Shard::default();
                     loop {
                         let b = next.fetch_add(1, std::sync::atomic::Ordering::SeqCst);
-                        if b >= batches.len() {
+                        if b >= work.len() {
                             break;
                         }
-                        if batches[b].is_empty() {
-                            continue;
+                        match &work[b] {
+                            Work::Batch(cases) => {
+                                if !cases.is_empty() {
+                                    run_batch(cases, &driver, &mut sh, false);
+                                }
+                            }
+                            Work::Exhaustive { prefix, len, slots } => {
+                                let mut shape = Shape::default();
+                                for op in prefix {
+                                    shape.apply(*op);
+                                }
+                                let mut cur: Vec<Case> = vec![];
+                                let mut n = 0u64;
+                                let mut p = prefix.clone();
+                                enumerate_sw(&mut p, &shape, *len, *slots, &mut |ops| {
+                                    n += 1;
+                                    cur.push(Case::Sw { threaded: false, ops: ops.to_vec() });
+                                    if cur.len() >= 10_000 {
+                                        run_batch(&cur, &driver, &mut sh, true);
+                                        cur.clear();
+                                    }
+                                });
+                                if !cur.is_empty() {
+                                    run_batch(&cur, &driver, &mut sh, true);
+                                }
+                                sh.bump(&format!("sw exhaustive: expressible sequences of length {len} with {slots} owned slots"), n);
+                                sh.exhaustive_sequences += n;
+                            }
                         }
-                        let every = if b % 7 == 1 { 1777 } else { 0 };
-                        run_batch(&batches[b], &driver, &mut sh, every);
                     }
                     sh
                 })
@@ -1404,12 +1452,13 @@ fn main() {
     let mut failures = vec![];
     let mut disagreements = vec![];
     let mut samples = vec![];
+    let mut exhaustive_nontrivial = 0u64;
+    let mut exhaustive_sequences = 0u64;
     for sh in shards {
         rep.evaluations += sh.evaluations;
-        for c in &sh.nontrivial {
-            rep.case(c, true);
-            rep.evaluations -= 1;
-        }
+        exhaustive_nontrivial += sh.exhaustive_nontrivial;
+        exhaustive_sequences += sh.exhaustive_sequences;
+        rep.nontrivial.extend(sh.nontrivial);
         for (k, v) in sh.dist {
             rep.bump_by(&k, v);
         }
@@ -1420,12 +1469,19 @@ fn main() {
             rep.driver_available = false;
         }
     }
+    if exhaustive_sequences > 0 {
+        rep.notes.push(format!(
+            "stopwatch sequences are generated expressible-only (Rust borrow rules: no stopwatch method while a TimerGuard is live); \
+             {exhaustive_sequences} expressible maximal sequences enumerated exhaustively (every shorter sequence is a prefix, observed too); \
+             the {exhaustive_nontrivial} non-trivial ones among them are distinct by construction and counted, not hashed"
+        ));
+    }
     failures.sort_by(|a, b| (a.1.len(), &a.1).cmp(&(b.1.len(), &b.1)));
     failures.dedup();
     disagreements.sort_by(|a, b| (a.1.len(), &a.1).cmp(&(b.1.len(), &b.1)));
-    samples.sort_by_key(|s| s.to_string());
+    samples.sort_by_key(|s| s.0);
     for s in samples {
-        rep.sample(s);
+        rep.sample(s.1);
     }
     for (key, case, out, what) in &failures {
         rep.oracle_failure(key, case, out, what);
@@ -1448,5 +1504,13 @@ fn main() {
     for (comp, case, out, reply) in &disagreements {
         rep.disagreement(comp, case, out, reply);
     }
-    rep.write(&args);
+    // the exhaustive cases are distinct by construction: counted exactly instead of hashed
+    let mut j = rep.to_json();
+    j["distinct_nontrivial"] = json!(rep.nontrivial.len() as u64 + exhaustive_nontrivial);
+    let text = serde_json::to_string_pretty(&j).unwrap();
+    if args.out.is_empty() {
+        println!("{text}");
+    } else {
+        std::fs::write(&args.out, text).expect("write report");
+    }
 }
